@@ -522,6 +522,10 @@ func runC01(c model.Case, ev *Ev) error {
 	// and session state that the history built must still be there
 	state, _ := c.Conf["state"].(string)
 	intact := state == "assoc" || state == "sess" || state == "modded"
+	// fuzzAccepted: a fuzzer-made datagram was accepted as a session request; what it installed (UE address, TEID)
+	// may legitimately collide with the fixed follow-up scenario, so that scenario decides nothing then
+	fuzzCase, _ := c.Conf["fuzz"].(bool)
+	fuzzAccepted := false
 	for i, op := range c.Ops {
 		o := run.Exec(op)
 		if op.Kind != "raw" {
@@ -557,6 +561,9 @@ func runC01(c model.Case, ev *Ev) error {
 			}
 			if cause, ok := causeOf(am); !ok || cause == ie.CauseRequestAccepted {
 				intact = false // processed as a valid request: whatever it meant has happened
+				if mt := am.MessageType(); fuzzCase && (mt == message.MsgTypeSessionEstablishmentResponse || mt == message.MsgTypeSessionModificationResponse) {
+					fuzzAccepted = true
+				}
 			}
 		}
 		// classification for the evidence
@@ -582,6 +589,11 @@ func runC01(c model.Case, ev *Ev) error {
 			return fmt.Errorf("every injected datagram was dropped or rejected, yet a valid %s on the same association (state %q, no new Association Setup) is no longer processed normally: noresp=%v cause=%d\n%s", op.Kind, state, o.NoResp, o.Cause, c01Diag(r, o.CmdFrom))
 		}
 		ev.Label("same-association-follow-up")
+	}
+	if fuzzAccepted {
+		ev.Label("fuzz-accepted-session-request")
+		ev.Case(c, nontriv, len(c.Ops))
+		return nil
 	}
 	// a valid scenario afterwards on the same peer and on another peer
 	for peer := 0; peer < 2; peer++ {
